@@ -318,6 +318,13 @@ impl Workspace {
         for (path, previous) in undo.into_iter().rev() {
             match previous {
                 Some(bytes) => {
+                    if path.is_dir() {
+                        // A later operation of the failed patch turned this file's path into a
+                        // directory (create_dir_all for a nested add or move target). Whatever
+                        // the patch put below it has already been reverted, so only empty
+                        // directories can remain; remove them or the write below cannot succeed.
+                        let _ = remove_empty_dirs(&path);
+                    }
                     if let Some(parent) = path.parent() {
                         let _ = fs::create_dir_all(parent);
                     }
@@ -330,6 +337,17 @@ impl Workspace {
         }
         Ok(())
     }
+}
+
+/// Removes `dir` if it contains nothing but (nested) empty directories; never removes a file.
+fn remove_empty_dirs(dir: &Path) -> io::Result<()> {
+    for entry in fs::read_dir(dir)? {
+        let path = entry?.path();
+        if path.is_dir() {
+            remove_empty_dirs(&path)?;
+        }
+    }
+    fs::remove_dir(dir)
 }
 
 fn now_ms() -> u64 {
